@@ -125,11 +125,48 @@ type Cluster struct {
 	SegSize  int32
 	// Hooks
 	OnRPC func(e Event)
+	// Isolated nodes are cut off from the coordinator and from their peers (clients still
+	// reach them); CoordCut nodes are only unreachable for the coordinator.
+	Isolated map[string]bool
+	CoordCut map[string]bool
+}
+
+// Isolate partitions a node away from the coordinator and the other nodes.
+func (c *Cluster) Isolate(name string) {
+	c.Isolated[name] = true
+	c.Repl.Down[name] = true
+	n := c.Nodes[name]
+	for _, st := range c.Repl.Streams {
+		if st.follower == name || st.ownerGrp == n.Group {
+			st.Break()
+		}
+	}
+}
+
+// Heal reconnects a node.
+func (c *Cluster) Heal(name string) {
+	delete(c.Isolated, name)
+	delete(c.CoordCut, name)
+	if c.Nodes[name].Up {
+		c.Repl.Down[name] = false
+	}
 }
 
 func NewCluster(s *vsched.Sched, names []string, syncData bool) *Cluster {
 	kv.VerifMemTableSize = 1 << 20
-	c := &Cluster{S: s, Env: NewEnv(s), Nodes: map[string]*Node{}, Repl: NewNet(), SyncData: syncData, SegSize: 64 * 1024, nextGrp: 10}
+	c := &Cluster{S: s, Env: NewEnv(s), Nodes: map[string]*Node{}, Repl: NewNet(), SyncData: syncData, SegSize: 64 * 1024, nextGrp: 10,
+		Isolated: map[string]bool{}, CoordCut: map[string]bool{}}
+	c.Repl.Blocked = func(ownerGrp int, follower string) bool {
+		if c.Isolated[follower] {
+			return true
+		}
+		for name, n := range c.Nodes {
+			if n.Group == ownerGrp && c.Isolated[name] {
+				return true
+			}
+		}
+		return false
+	}
 	c.Meta = metadata.NewMetadataProviderMemory()
 	c.Status = resources.NewStatusResource(c.Meta)
 	c.Cfg = &FakeConfig{servers: map[string]model.Server{}, ns: model.NamespaceConfig{Name: NS, InitialShardCount: 1, ReplicationFactor: 3}}
@@ -279,7 +316,18 @@ func errStr(err error) string {
 	return err.Error()
 }
 
+func (r *CoordRpc) cut(node string) bool {
+	if r.c.Isolated[node] || r.c.CoordCut[node] {
+		r.c.S.Step(0) // the failure takes a scheduling step, like a refused connection
+		return true
+	}
+	return false
+}
+
 func (r *CoordRpc) NewTerm(ctx context.Context, node model.Server, req *proto.NewTermRequest) (*proto.NewTermResponse, error) {
+	if r.cut(node.Internal) {
+		return nil, ErrUnavailable
+	}
 	r.c.log(Event{Kind: "send:NewTerm", Node: node.Internal, Term: req.Term})
 	resp, err := call(r.c, ctx, node.Internal, "NewTerm", func(n *Node) (*proto.NewTermResponse, error) {
 		return n.Srv.NewTerm(context.Background(), req.CloneVT())
@@ -293,6 +341,9 @@ func (r *CoordRpc) NewTerm(ctx context.Context, node model.Server, req *proto.Ne
 }
 
 func (r *CoordRpc) BecomeLeader(ctx context.Context, node model.Server, req *proto.BecomeLeaderRequest) (*proto.BecomeLeaderResponse, error) {
+	if r.cut(node.Internal) {
+		return nil, ErrUnavailable
+	}
 	sent := r.c.S.Steps()
 	r.c.log(Event{Kind: "send:BecomeLeader", Node: node.Internal, Term: req.Term, Info: fmt.Sprint(req.FollowerMaps), FollowerMap: req.FollowerMaps})
 	resp, err := call(r.c, ctx, node.Internal, "BecomeLeader", func(n *Node) (*proto.BecomeLeaderResponse, error) {
@@ -307,6 +358,9 @@ func (r *CoordRpc) BecomeLeader(ctx context.Context, node model.Server, req *pro
 }
 
 func (r *CoordRpc) AddFollower(ctx context.Context, node model.Server, req *proto.AddFollowerRequest) (*proto.AddFollowerResponse, error) {
+	if r.cut(node.Internal) {
+		return nil, ErrUnavailable
+	}
 	r.c.log(Event{Kind: "send:AddFollower", Node: node.Internal, Term: req.Term, Info: req.FollowerName, Head: req.FollowerHeadEntryId})
 	resp, err := call(r.c, ctx, node.Internal, "AddFollower", func(n *Node) (*proto.AddFollowerResponse, error) {
 		return n.Srv.AddFollower(context.Background(), req.CloneVT())
@@ -316,12 +370,18 @@ func (r *CoordRpc) AddFollower(ctx context.Context, node model.Server, req *prot
 }
 
 func (r *CoordRpc) GetStatus(ctx context.Context, node model.Server, req *proto.GetStatusRequest) (*proto.GetStatusResponse, error) {
+	if r.cut(node.Internal) {
+		return nil, ErrUnavailable
+	}
 	return call(r.c, ctx, node.Internal, "GetStatus", func(n *Node) (*proto.GetStatusResponse, error) {
 		return n.Srv.GetStatus(context.Background(), req.CloneVT())
 	})
 }
 
 func (r *CoordRpc) DeleteShard(ctx context.Context, node model.Server, req *proto.DeleteShardRequest) (*proto.DeleteShardResponse, error) {
+	if r.cut(node.Internal) {
+		return nil, ErrUnavailable
+	}
 	r.c.log(Event{Kind: "send:DeleteShard", Node: node.Internal, Term: req.Term})
 	return call(r.c, ctx, node.Internal, "DeleteShard", func(n *Node) (*proto.DeleteShardResponse, error) {
 		return n.Srv.DeleteShard(context.Background(), req.CloneVT())
@@ -486,11 +546,13 @@ func (r *readCb) OnComplete(err error)              { vsched.Send(r.ch)(getRes{r
 func i64p(v int64) *int64 { return &v }
 
 // LeaderByStatus returns the node that currently reports LEADER with the highest term.
-func (c *Cluster) LeaderByStatus() (string, int64) {
+func (c *Cluster) LeaderByStatus() (string, int64) { return c.LeaderByStatusExcept("") }
+
+func (c *Cluster) LeaderByStatusExcept(except string) (string, int64) {
 	best, bt := "", int64(-1)
 	for _, name := range c.Order {
 		n := c.Nodes[name]
-		if !n.Up {
+		if !n.Up || name == except {
 			continue
 		}
 		lc, _ := server.VerifControllers(n.Srv, Shard)
